@@ -11,6 +11,7 @@ import (
 
 //verif:harness VerifC10_MapOrder quick.maxpaths=60000 thorough.maxpaths=400000 timeout=2400 maporder=evalAttributes,mergeStyles,setStyleProperty,evalTemplate,evalInclude,evalSlot,buildStyleString,buildClassString,parseStyleMap,parseStyleString,evalObjectBinding,parseObjectPairs,evalClassObject
 //verif:harness VerifC10_History poolreuse=lifo quick.maxpaths=60000 thorough.maxpaths=400000 timeout=2400 steps=30000000
+//verif:harness VerifC10_Files poolreuse=lifo quick.maxpaths=20000 thorough.maxpaths=100000 timeout=1800
 //verif:harness VerifC10_CallerData quick.maxpaths=20000 thorough.maxpaths=100000 timeout=1800
 
 var zzC10Programs = []string{
@@ -164,5 +165,39 @@ func VerifC10_CallerData() {
 		_, dom2, _ := vue.loadCachedWithFrontMatter("page.vuego")
 		zzAssert(zzDomSig(dom2) == sig1, "C10.caller.cached-template-modified")
 		zzAssert(len(dom1) == len(dom2) && (len(dom1) == 0 || dom1[0] == dom2[0]), "C10.caller.cache-entry-replaced-without-change")
+	}
+}
+
+// VerifC10_Files: the same for loaded files: pages in different directories
+// (whose layout names resolve differently), rendered in any order on one
+// engine, come out as on a fresh engine.
+func VerifC10_Files() {
+	L := zzBound("LF", 2, 3)
+	files := map[string]string{
+		"blog/post.vuego":    "---\nlayout: wrap\ntitle: B\n---\n<p>post {{ title }} {{ t }}</p>",
+		"blog/wrap.vuego":    `<div class="blog"><span v-html="content"></span>{{ title }}</div>`,
+		"docs/page.vuego":    "---\nlayout: wrap\ntitle: D\n---\n<p>page {{ title }} {{ t }}</p>",
+		"layouts/wrap.vuego": `<div class="site"><span v-html="content"></span>{{ title }}</div>`,
+		"plain.vuego":        "---\ntitle: P\n---\n<p>plain {{ title }} {{ t }}</p>",
+		"docs/other.vuego":   "---\nlayout: wrap.vuego\n---\n<p>other {{ t }}</p>",
+	}
+	pages := []string{"blog/post.vuego", "docs/page.vuego", "plain.vuego", "docs/other.vuego"}
+	fsys := newZZFS(files)
+	used := NewFS(fsys)
+	render := func(tpl Template, page string, v int) (string, error) {
+		w := &zzWriter{limit: 1 << 20}
+		err := tpl.Load(page).Fill(zzC10Data(v)).Render(contextBackground(), w)
+		return string(w.got), err
+	}
+	for step := 0; step < L; step++ {
+		page := pages[zzChoice("page", len(pages))]
+		v := zzChoice("data", 2)
+		out, err := render(used, page, v)
+		fresh, ferr := render(NewFS(fsys), page, v)
+		zzNote("page", page)
+		zzNote("used", out)
+		zzNote("fresh", fresh)
+		zzAssert((err == nil) == (ferr == nil), "C10.files.error-differs-from-fresh-engine")
+		zzAssert(out == fresh, "C10.files.output-differs-from-fresh-engine")
 	}
 }
